@@ -511,10 +511,16 @@ def sc_hard_limit(params, obs, save):
     eff = params['eff_limit']
     dur = params['dur']
     fn = {'c_sleep': tasks.t_value, 'python': tasks.t_busy, 'ignore_term': tasks.t_ignore_term,
-          'in_handler': tasks.t_in_handler, 'catch_base': tasks.t_catch_base}[params['task']]
+          'in_handler': tasks.t_in_handler, 'catch_base': tasks.t_catch_base,
+          'translate': tasks.t_translate}[params['task']]
     kw = {}
     if params.get('job_hard') is not None:
         kw['timeout'] = params['job_hard']
+    if params.get('warm'):
+        # every worker has reported one failing job already (its error path is warm)
+        for w in range(2 * params['nproc']):
+            _outcome(lambda: pool.apply_async(tasks.t_raise, ('warm.%d' % w, 'KeyError', 0.05),
+                                              timeout=60).get(20))
     siblings = []
     if params.get('siblings'):
         # map / imap on the same pool: they take no limit and run longer than it
@@ -534,6 +540,11 @@ def sc_hard_limit(params, obs, save):
     if params.get('slow_cb'):
         follower = pool.apply_async(tasks.t_value, ('follower', params['slow_cb'] + 1.0),
                                     timeout=60)
+    queued = None
+    if params.get('queued_behind'):
+        # waiting in the queue when the limit strikes: the replacement serves it
+        queued = [pool.apply_async(tasks.t_value, ('queued.%d' % q, 0.3), timeout=60)
+                  for q in range(params['queued_behind'])]
     _wait_for(lambda: h.ready(), dur + (eff or 0) + 25 + (params.get('slow_cb') or 0))
     t_res = time.monotonic()
     time.sleep(0.3)           # callbacks run right after the outcome is set
@@ -555,6 +566,8 @@ def sc_hard_limit(params, obs, save):
     if follower is not None:
         obs['follower'] = _outcome(lambda: follower.get(params['slow_cb'] + 30))
         obs['victim_state_end'] = pid_exists(victim) if victim else None
+    if queued is not None:
+        obs['queued'] = [_outcome(lambda o=o: o.get(30)) for o in queued]
     probes = [pool.apply_async(tasks.t_pid, ('probe.%d' % i, 0.05)) for i in range(params.get('probes', 3))]
     obs['probes'] = [_outcome(lambda o=o: o.get(20)) for o in probes]
     obs['worst_stall'] = hb.stop()
